@@ -8,24 +8,24 @@ open Goyang.Model Goyang.Model.Session Goyang.Spec.Session
 
 /-! ### one step -/
 
-theorem step_load_bad (plug : Plug) (s : Session) (f : SrcFile) :
+theorem step_load_bad (plug : Registry → Plug) (s : Session) (f : SrcFile) :
     step plug s (.load f false) = (s, .rejected .build) := rfl
 
-theorem step_load_ok (plug : Plug) (s : Session) (f : SrcFile) (r : Registry) (h : tryLoad s.reg f = .ok r) :
+theorem step_load_ok (plug : Registry → Plug) (s : Session) (f : SrcFile) (r : Registry) (h : tryLoad s.reg f = .ok r) :
     step plug s (.load f true) = ({ s with reg := r }, .accepted) := by
   simp only [step, Bool.not_true, Bool.false_eq_true, if_false, h]
 
-theorem step_load_dup (plug : Plug) (s : Session) (f : SrcFile) (e : Registry.AddErr) (h : tryLoad s.reg f = .error e) :
+theorem step_load_dup (plug : Registry → Plug) (s : Session) (f : SrcFile) (e : Registry.AddErr) (h : tryLoad s.reg f = .error e) :
     step plug s (.load f true) = (s, .rejected (.add e)) := by
   simp only [step, Bool.not_true, Bool.false_eq_true, if_false, h]
 
-theorem step_process (plug : Plug) (s : Session) :
+theorem step_process (plug : Registry → Plug) (s : Session) :
     step plug s .process =
-      ({ s with cache := some (processAll s.reg s.opts plug) }, .processed (processAll s.reg s.opts plug)) := rfl
+      ({ s with cache := some (processAll s.reg s.opts (plug s.reg)) }, .processed (processAll s.reg s.opts (plug s.reg))) := rfl
 
 /-- A load answers `accepted` or `rejected`, nothing else; accepted exactly when the text was
 built and every statement was added. -/
-theorem step_load_cases (plug : Plug) (s : Session) (f : SrcFile) (ok : Bool) :
+theorem step_load_cases (plug : Registry → Plug) (s : Session) (f : SrcFile) (ok : Bool) :
     (∃ r, ok = true ∧ tryLoad s.reg f = .ok r ∧ step plug s (.load f ok) = ({ s with reg := r }, .accepted)) ∨
     (∃ w, step plug s (.load f ok) = (s, .rejected w)) := by
   cases ok with
@@ -36,14 +36,14 @@ theorem step_load_cases (plug : Plug) (s : Session) (f : SrcFile) (ok : Bool) :
     | error e => exact .inr ⟨.add e, step_load_dup plug s f e h⟩
 
 /-- A rejected load leaves the state as it was: equal, not merely equivalent. -/
-theorem step_rejected_state (plug : Plug) (s : Session) (f : SrcFile) (ok : Bool) (w : Reject)
+theorem step_rejected_state (plug : Registry → Plug) (s : Session) (f : SrcFile) (ok : Bool) (w : Reject)
     (h : (step plug s (.load f ok)).2 = .rejected w) : (step plug s (.load f ok)).1 = s := by
   rcases step_load_cases plug s f ok with ⟨r, _, _, e⟩ | ⟨w', e⟩
   · rw [e] at h; cases h
   · rw [e]
 
 /-- An accepted load: the text was built and `tryLoad` gave the new registry. -/
-theorem step_accepted (plug : Plug) (s : Session) (f : SrcFile) (ok : Bool)
+theorem step_accepted (plug : Registry → Plug) (s : Session) (f : SrcFile) (ok : Bool)
     (h : (step plug s (.load f ok)).2 = .accepted) :
     ∃ r, tryLoad s.reg f = .ok r ∧ (step plug s (.load f ok)).1 = { s with reg := r } := by
   rcases step_load_cases plug s f ok with ⟨r, _, hr, e⟩ | ⟨w', e⟩
@@ -51,14 +51,14 @@ theorem step_accepted (plug : Plug) (s : Session) (f : SrcFile) (ok : Bool)
   · rw [e] at h; cases h
 
 theorem loadFile_of_ok (reg r : Registry) (f : SrcFile) (h : tryLoad reg f = .ok r) : loadFile reg f = r := by
-  simp only [loadFile, h]
+  rw [loadFile_eq, h]
 
 theorem loadFile_of_error (reg : Registry) (f : SrcFile) (e : Registry.AddErr) (h : tryLoad reg f = .error e) :
     loadFile reg f = reg := by
-  simp only [loadFile, h]
+  rw [loadFile_eq, h]
 
 /-- No op writes the options. -/
-theorem step_opts (plug : Plug) (s : Session) (op : Op) : (step plug s op).1.opts = s.opts := by
+theorem step_opts (plug : Registry → Plug) (s : Session) (op : Op) : (step plug s op).1.opts = s.opts := by
   cases op with
   | load f ok => rcases step_load_cases plug s f ok with ⟨r, _, _, e⟩ | ⟨w, e⟩ <;> rw [e]
   | process => rfl
@@ -73,7 +73,7 @@ theorem step_opts (plug : Plug) (s : Session) (op : Op) : (step plug s op).1.opt
         · split <;> rfl
 
 /-- `process` and `read` do not write the registry. -/
-theorem step_reg_of_not_load (plug : Plug) (s : Session) (op : Op) (h : ∀ f ok, op ≠ .load f ok) :
+theorem step_reg_of_not_load (plug : Registry → Plug) (s : Session) (op : Op) (h : ∀ f ok, op ≠ .load f ok) :
     (step plug s op).1.reg = s.reg := by
   cases op with
   | load f ok => exact absurd rfl (h f ok)
@@ -89,7 +89,7 @@ theorem step_reg_of_not_load (plug : Plug) (s : Session) (op : Op) (h : ∀ f ok
         · split <;> rfl
 
 /-- A read answers with a read answer. -/
-theorem step_read_out (plug : Plug) (s : Session) (key path : String) :
+theorem step_read_out (plug : Registry → Plug) (s : Session) (key path : String) :
     (step plug s (.read key path)).2.isReadOut = true := by
   simp only [step]
   split
@@ -101,7 +101,7 @@ theorem step_read_out (plug : Plug) (s : Session) (key path : String) :
       · split <;> rfl
 
 /-- Anything else does not. -/
-theorem step_nonread_out (plug : Plug) (s : Session) (op : Op) (h : op.isRead = false) :
+theorem step_nonread_out (plug : Registry → Plug) (s : Session) (op : Op) (h : op.isRead = false) :
     (step plug s op).2.isReadOut = false := by
   cases op with
   | load f ok => rcases step_load_cases plug s f ok with ⟨r, _, _, e⟩ | ⟨w, e⟩ <;> rw [e] <;> rfl
@@ -110,7 +110,7 @@ theorem step_nonread_out (plug : Plug) (s : Session) (op : Op) (h : op.isRead = 
 
 /-- Two sessions with the same registry and options: `load` and `process` answer the same and
 stay that way (the cache is only read by `read`). -/
-theorem step_core (plug : Plug) (s t : Session) (op : Op) (hr : s.reg = t.reg) (ho : s.opts = t.opts)
+theorem step_core (plug : Registry → Plug) (s t : Session) (op : Op) (hr : s.reg = t.reg) (ho : s.opts = t.opts)
     (hop : op.isRead = false) :
     (step plug s op).2 = (step plug t op).2 ∧ (step plug s op).1.reg = (step plug t op).1.reg := by
   cases op with
@@ -130,32 +130,32 @@ theorem step_core (plug : Plug) (s t : Session) (op : Op) (hr : s.reg = t.reg) (
 
 /-! ### histories -/
 
-theorem runFrom_nil (plug : Plug) (s : Session) : runFrom plug s [] = (s, []) := rfl
+theorem runFrom_nil (plug : Registry → Plug) (s : Session) : runFrom plug s [] = (s, []) := rfl
 
-theorem runFrom_cons (plug : Plug) (s : Session) (op : Op) (ops : List Op) :
+theorem runFrom_cons (plug : Registry → Plug) (s : Session) (op : Op) (ops : List Op) :
     runFrom plug s (op :: ops) =
       ((runFrom plug (step plug s op).1 ops).1, (step plug s op).2 :: (runFrom plug (step plug s op).1 ops).2) := rfl
 
-theorem runFrom_append (plug : Plug) (s : Session) (h₁ h₂ : List Op) :
+theorem runFrom_append (plug : Registry → Plug) (s : Session) (h₁ h₂ : List Op) :
     runFrom plug s (h₁ ++ h₂) =
       ((runFrom plug (runFrom plug s h₁).1 h₂).1, (runFrom plug s h₁).2 ++ (runFrom plug (runFrom plug s h₁).1 h₂).2) := by
   induction h₁ generalizing s with
   | nil => rfl
   | cons op ops ih => simp only [List.cons_append, runFrom_cons, ih]
 
-theorem runFrom_length (plug : Plug) (s : Session) (h : List Op) : (runFrom plug s h).2.length = h.length := by
+theorem runFrom_length (plug : Registry → Plug) (s : Session) (h : List Op) : (runFrom plug s h).2.length = h.length := by
   induction h generalizing s with
   | nil => rfl
   | cons op ops ih => simp only [runFrom_cons, List.length_cons, ih]
 
-theorem runFrom_opts (plug : Plug) (s : Session) (h : List Op) : (runFrom plug s h).1.opts = s.opts := by
+theorem runFrom_opts (plug : Registry → Plug) (s : Session) (h : List Op) : (runFrom plug s h).1.opts = s.opts := by
   induction h generalizing s with
   | nil => rfl
   | cons op ops ih => rw [runFrom_cons]; simp only [ih, step_opts]
 
 /-- The registry a history leaves behind is the registry obtained by loading, in order, exactly
 the texts whose load was answered `accepted`. -/
-theorem runFrom_reg (plug : Plug) (s : Session) (h : List Op) :
+theorem runFrom_reg (plug : Registry → Plug) (s : Session) (h : List Op) :
     (runFrom plug s h).1.reg = (acceptedTexts h (runFrom plug s h).2).foldl loadFile s.reg := by
   induction h generalizing s with
   | nil => rfl
@@ -185,7 +185,7 @@ theorem runFrom_reg (plug : Plug) (s : Session) (h : List Op) :
 
 /-- Loading the accepted texts of a history as a batch, into any session with the registry the
 history started from: every one of them is accepted again and the registry reached is the same. -/
-theorem batch_replays (plug : Plug) (h : List Op) (s t : Session) (hst : t.reg = s.reg) :
+theorem batch_replays (plug : Registry → Plug) (h : List Op) (s t : Session) (hst : t.reg = s.reg) :
     (runFrom plug t (loads (acceptedTexts h (runFrom plug s h).2))).1.reg = (runFrom plug s h).1.reg ∧
     (runFrom plug t (loads (acceptedTexts h (runFrom plug s h).2))).2 =
       (acceptedTexts h (runFrom plug s h).2).map fun _ => Out.accepted := by
@@ -224,7 +224,7 @@ theorem batch_replays (plug : Plug) (h : List Op) (s t : Session) (hst : t.reg =
 
 /-- Histories from two sessions with the same registry and options answer every `load` and
 `process` alike, whatever reads are interleaved in one of them. -/
-theorem runFrom_skip_reads (plug : Plug) (h : List Op) (s t : Session) (hr : s.reg = t.reg) (ho : s.opts = t.opts) :
+theorem runFrom_skip_reads (plug : Registry → Plug) (h : List Op) (s t : Session) (hr : s.reg = t.reg) (ho : s.opts = t.opts) :
     (runFrom plug s h).2.filter (fun o => !o.isReadOut) = (runFrom plug t (h.filter fun op => !op.isRead)).2 ∧
     (runFrom plug s h).1.reg = (runFrom plug t (h.filter fun op => !op.isRead)).1.reg := by
   induction h generalizing s t with
